@@ -51,8 +51,12 @@ class Ctx:
         if not _counted:
             self.obligations.append((rule, key, False))
         f = self.facts.fns.get(fn) if self.facts is not None and fn else None
+        now = None
+        if self.facts is not None and fn and getattr(self.facts, 'fn_aliases', None):
+            cur = [k for k, b in self.facts.fn_aliases.items() if b == fn]
+            now = cur[0] if cur else None
         v = {"property": self.prop, "rule": rule, "key": key,
-             "construct": {"function": fn, "file": (span or (f.span if f else None))},
+             "construct": {"function": fn if now is None else '%s (named %s in this tree)' % (fn, now), "file": (span or (f.span if f else None))},
              "instance": instance, "found": _short(found, 4000), "expected": _short(expected, 4000), "why": why}
         self.violations.append(v)
 
